@@ -6,9 +6,12 @@
     collector and as a subscriber) / Dispatch, plus the default bodies of the three traits.  The semantics of every object
     below ([coll_obj], [sub_obj], [dispatch_sem], [run_case]) is *defined from these rows*, so each theorem is about the
     code as it is in the repository under check.  Stacks ([coll]) are arbitrary trees: any number of layers, `and_then`
-    pairs, Vecs, wrappers, `None`, Identity, filter probes; workloads ([list op]) are arbitrary.
-    Scope: stacks without per-layer filters on a root collector other than `Registry` (Layered's three private flags are
-    false); the harness covers Registry roots and `Filtered` differentially. *)
+    pairs, Vecs, wrappers, `None`, Identity, filter probes, on a root that is a recording collector or the `Registry`
+    ([b_registry]: it records nothing, answers always / true / no hint; whether `try_close` closes is an oracle, C05);
+    workloads ([list op]) are arbitrary.  `Layered`'s three private flags are computed from the built stack
+    ([flags_of_root]: `inner_is_registry` and `inner_has_subscriber_filter` hold exactly for the `Layered` whose inner value is
+    the `Registry` itself; `has_subscriber_filter` is false throughout).  [root_ents] is what the root records of a call
+    (nothing for a `Registry`).  Out of scope: per-layer filters (`Filtered`, C07), covered by the harness differentially. *)
 From TV Require Import Forwarding.Model Forwarding.Expected Forwarding.Spec Forwarding.Proofs.
 From TV Require Import Forwarding.ReloadConc Forwarding.ProofsReloadConc.
 From Coq Require Import Permutation.
@@ -24,7 +27,7 @@ Print Assumptions C09_table_transparent.
 (** ** Exactly once, inner before outer (any stack, any arguments) *)
 (** record, follows-from, event, enter, exit: the root collector, then each layer once, inner layers before outer ones. *)
 Theorem C09_once_inner_first : forall c mc ms a, In (mc, ms) notif_pairs ->
-  call (coll_obj gen_tables c) mc a = ((root_id c, mc, a) :: ents ms a (coll_recv false ms c), RUnit).
+  call (coll_obj gen_tables c) mc a = (root_ents c mc a ++ ents ms a (coll_recv false ms c), RUnit).
 Proof. exact once_inner_first. Qed.
 Print Assumptions C09_once_inner_first.
 
@@ -37,7 +40,7 @@ Proof. split; [cbn; tauto|vm_compute; reflexivity]. Qed.
 (** new span: the root hands out the id; every layer then sees `on_new_span` with that id. *)
 Theorem C09_once_new_span : forall c a,
   call (coll_obj gen_tables c) new_span a =
-    ((root_id c, new_span, a) :: ents on_new_span (a_cs a, a_id a, 0) (coll_recv false on_new_span c), RId (a_id a)).
+    (root_ents c new_span a ++ ents on_new_span (a_cs a, a_id a, 0) (coll_recv false on_new_span c), RId (a_id a)).
 Proof. exact once_new_span. Qed.
 Print Assumptions C09_once_new_span.
 
@@ -45,16 +48,16 @@ Print Assumptions C09_once_new_span.
 Theorem C09_once_close : forall c a,
   call (coll_obj gen_tables c) try_close a =
     if b_close (root_beh c) (a_id a)
-    then ((root_id c, try_close, a) :: ents on_close a (coll_recv false on_close c), RBool true)
-    else ([(root_id c, try_close, a)], RBool false).
+    then (root_ents c try_close a ++ ents on_close a (coll_recv false on_close c), RBool true)
+    else (root_ents c try_close a, RBool false).
 Proof. exact once_close. Qed.
 Print Assumptions C09_once_close.
 
 (** id change: the layers hear `on_id_change` iff `clone_span` of the root returned a different id. *)
 Theorem C09_once_id_change : forall c a,
   call (coll_obj gen_tables c) clone_span a =
-    let nw := b_clone (root_beh c) (a_id a) in
-    ((root_id c, clone_span, a) ::
+    let nw := r_clone (root_beh c) (a_id a) in
+    (root_ents c clone_span a ++
        (if nw =? a_id a then [] else ents on_id_change (a_cs a, a_id a, nw) (coll_recv false on_id_change c)), RId nw).
 Proof. exact once_id_change. Qed.
 Print Assumptions C09_once_id_change.
@@ -62,7 +65,7 @@ Print Assumptions C09_once_id_change.
 (** dispatcher registration: the root, then every layer exactly once ... *)
 Theorem C09_register_dispatch_once : forall c a, exists ids,
   call (coll_obj gen_tables c) on_register_dispatch a =
-    ((root_id c, on_register_dispatch, a) :: ents on_register_dispatch a ids, RUnit) /\
+    (root_ents c on_register_dispatch a ++ ents on_register_dispatch a ids, RUnit) /\
   Permutation ids (coll_recv false on_register_dispatch c).
 Proof. exact register_dispatch_once. Qed.
 Print Assumptions C09_register_dispatch_once.
@@ -71,7 +74,7 @@ Print Assumptions C09_register_dispatch_once.
     ([f18_fixed] is read off the generated row of `impl Subscribe for Layered`). *)
 Theorem C09_register_dispatch_inner_first : forall c a, f18_fixed gen_tables = true \/ pair_free c = true ->
   call (coll_obj gen_tables c) on_register_dispatch a =
-    ((root_id c, on_register_dispatch, a) :: ents on_register_dispatch a (coll_recv false on_register_dispatch c), RUnit).
+    (root_ents c on_register_dispatch a ++ ents on_register_dispatch a (coll_recv false on_register_dispatch c), RUnit).
 Proof. exact register_dispatch_inner_first. Qed.
 Print Assumptions C09_register_dispatch_inner_first.
 
@@ -85,7 +88,7 @@ Theorem C09_F18_refuted : f18_fixed gen_tables = false ->
   let c := CLayered (SPair (SLeaf 2 unhinted) (SLeaf 1 unhinted)) (CLeaf 0 unhinted) in
   pair_free c = false /\
   fst (call (coll_obj gen_tables c) on_register_dispatch arg0) <>
-    (root_id c, on_register_dispatch, arg0) :: ents on_register_dispatch arg0 (coll_recv false on_register_dispatch c).
+    root_ents c on_register_dispatch arg0 ++ ents on_register_dispatch arg0 (coll_recv false on_register_dispatch c).
 Proof. exact F18_refuted. Qed.
 Print Assumptions C09_F18_refuted.
 
@@ -101,18 +104,45 @@ Theorem C09_query_outer_first_until_veto : forall c q a,
 Proof. exact query_outer_first_until_veto. Qed.
 Print Assumptions C09_query_outer_first_until_veto.
 
-(** callsite registration is a query in the code (DESIGN §7): outer first, a `never` ends the walk.  Linear stacks (each
-    layer one recording leaf at most, however wrapped); a Vec of several layers asks all of them, a pair nests differently. *)
-Theorem C09_register_callsite_outer_first_until_never : forall c a, a = (a_cs a, 0, 0) -> linear c = true ->
-  call (coll_obj gen_tables c) register_callsite a = rc_out (rc_until (a_cs a) (coll_ask c)).
+(** callsite registration is a query in the code (DESIGN §7).  For EVERY stack shape the model's `register_callsite` is the
+    tree walk [rc_coll] of Forwarding/Spec.v, which is what "outer first until `never`" means for a tree:
+    - traversal order = [coll_ask] (a layer before the collector underneath, a pair's outer half before its inner half, Vec
+      elements left to right); the log is a subsequence of it ([sublist]): nobody twice, nobody out of order;
+    - `c.with(s)` and `inner.and_then(outer)`: if the outer side's interest is `never` the whole inner side is skipped and the
+      answer is `never`; otherwise the inner side is walked too and the answer is `sometimes` if the outer side said so, else
+      the inner side's ([C09_register_callsite_skips_after_never]);
+    - a Vec asks all its elements whatever they answer and folds never-if-any / always-iff-all / else sometimes (f08c5cd);
+    - `None`, Identity, a `None` filter and a `Registry` root are not recorded and count as `always`. *)
+Theorem C09_register_callsite_outer_first_until_never : forall c a,
+  call (coll_obj gen_tables c) register_callsite a = rc_out (rc_coll a c) /\
+  sublist (ids (fst (rc_coll a c))) (ask_ids (coll_ask c)).
 Proof. exact register_callsite_outer_first_until_never. Qed.
 Print Assumptions C09_register_callsite_outer_first_until_never.
 
+Theorem C09_register_callsite_skips_after_never :
+  (forall a s c, snd (rc_sub a s) = INever -> rc_coll a (CLayered s c) = (fst (rc_sub a s), INever)) /\
+  (forall a o i, snd (rc_sub a o) = INever -> rc_sub a (SPair o i) = (fst (rc_sub a o), INever)) /\
+  (forall a s c, snd (rc_sub a s) <> INever -> fst (rc_coll a (CLayered s c)) = fst (rc_sub a s) ++ fst (rc_coll a c)) /\
+  (forall a o i, snd (rc_sub a o) <> INever -> fst (rc_sub a (SPair o i)) = fst (rc_sub a o) ++ fst (rc_sub a i)) /\
+  (forall a xs, fst (rc_sub a (SVec xs)) = List.concat (map (fun x => fst (rc_sub a x)) xs)).
+Proof. exact rc_skips_after_never. Qed.
+Print Assumptions C09_register_callsite_skips_after_never.
+
+(** On a linear stack (each layer one recording leaf at most, however wrapped) the walk is the plain list walk. *)
+Theorem C09_register_callsite_linear : forall c a, a = (a_cs a, 0, 0) -> linear c = true ->
+  call (coll_obj gen_tables c) register_callsite a = rc_out (rc_until (a_cs a) (coll_ask c)).
+Proof. exact register_callsite_linear. Qed.
+Print Assumptions C09_register_callsite_linear.
+
 Example C09_register_callsite_nonvacuous :
-  let c := CLayered (SLeaf 2 (beh_of [2;2] [] [] None 255 false))
-             (CLayered (SWrap SwReload (SLeaf 1 (beh_of [0;2] [] [] None 255 false))) (CLeaf 0 unhinted)) in
-  linear c = true /\
-  call (coll_obj gen_tables c) register_callsite (0,0,0) = ([(2, register_callsite, (0,0,0)); (1, register_callsite, (0,0,0))], RInt INever).
+  (* rec.with(L1).with(vec![L2(never), L3]).with(L4(sometimes).and_then(L5)) on callsite 0:
+     L5 (outer half) first, then L4; the Vec asks both L2 and L3 although L2 says never; after the Vec's never, L1 and the root are
+     skipped; the answer is `sometimes` because the pair above (L4) said so *)
+  let c := CLayered (SPair (SLeaf 5 unhinted) (SLeaf 4 (beh_of [1] [] [] None 255 false)))
+             (CLayered (SVec [SLeaf 2 (beh_of [0] [] [] None 255 false); SLeaf 3 unhinted]) (CLayered (SLeaf 1 unhinted) (CLeaf 0 unhinted))) in
+  call (coll_obj gen_tables c) register_callsite (0,0,0) =
+    ([(5, register_callsite, (0,0,0)); (4, register_callsite, (0,0,0)); (2, register_callsite, (0,0,0)); (3, register_callsite, (0,0,0))], RInt ISometimes) /\
+  linear c = false.
 Proof. split; vm_compute; reflexivity. Qed.
 
 (** ** A veto stops delivery to all *)
@@ -144,7 +174,7 @@ Print Assumptions C09_enabled_veto.
 
 (** ** The three clauses above, operation by operation (what the harness observes and the driver compares) *)
 (** [spec_op c o] is computed from the stack's shape and the leaves' answers alone (Forwarding/Spec.v); it makes a claim for
-    every operation except `max_level_hint` and `register_callsite` on non-linear stacks. *)
+    every operation except `max_level_hint`. *)
 Theorem C09_spec_op_sound : forall c o l, spec_op c o = Some l -> fst (run_op gen_tables (coll_obj gen_tables c) o) = l.
 Proof. exact spec_op_sound. Qed.
 Print Assumptions C09_spec_op_sound.
@@ -195,6 +225,11 @@ Theorem C09_wrappers_transparent_while_unwinding : forall K ps x ops k,
   run_case_u gen_tables gen_order (cplug K (wrap_nest ps x)) ops k = run_case_u gen_tables gen_order (cplug K x) ops k.
 Proof. exact wrappers_transparent_while_unwinding. Qed.
 Print Assumptions C09_wrappers_transparent_while_unwinding.
+
+Theorem C09_collector_wrappers_transparent_while_unwinding : forall K ws c ops k, flags_of_root c = noflags ->
+  run_case_u gen_tables gen_order (kplug K (cwrap_nest ws c)) ops k = run_case_u gen_tables gen_order (kplug K c) ops k.
+Proof. exact collector_wrappers_transparent_while_unwinding. Qed.
+Print Assumptions C09_collector_wrappers_transparent_while_unwinding.
 
 (** Why the order matters: with `panicking()` first the reload-wrapped L2 misses the `exit` delivered during unwinding. *)
 Theorem C09_panicking_first_refuted :
@@ -260,10 +295,36 @@ Proof. exact filter_wrappers_transparent. Qed.
 Print Assumptions C09_filter_wrappers_transparent.
 
 (** Collector wrappers (Box<C>, Arc<C>) around any sub-stack, under any further layers. *)
-Theorem C09_collector_wrappers_transparent : forall K ws c ops,
+Theorem C09_collector_wrappers_transparent : forall K ws c ops, flags_of_root c = noflags ->
   run_case gen_tables (kplug K (cwrap_nest ws c)) ops = run_case gen_tables (kplug K c) ops.
 Proof. exact collector_wrappers_transparent. Qed.
 Print Assumptions C09_collector_wrappers_transparent.
+
+(** [flags_of_root c = noflags]: [c] is anything but the bare `Registry` value.  Boxing the `Registry` itself changes the
+    type that the `Layered` directly above compares with `Registry` (`inner_is_registry`); it shows only where the code
+    special-cases that layer by design: `registry().with(None)` reports OFF, `Box::new(registry()).with(None)` no hint. *)
+Theorem C09_boxed_registry_differs :
+  let reg := CLeaf 0 (beh_registry (fun _ => true)) in
+  flags_of_root reg <> noflags /\
+  run_case gen_tables (kplug (KUnder SNone KHole) (cwrap_nest [CwBox] reg)) [OHint] <>
+  run_case gen_tables (kplug (KUnder SNone KHole) reg) [OHint].
+Proof. exact boxed_registry_differs. Qed.
+Print Assumptions C09_boxed_registry_differs.
+
+Example C09_collector_wrappers_nonvacuous :
+  flags_of_root (CLayered (SLeaf 1 unhinted) (CLeaf 0 (beh_registry (fun _ => true)))) = noflags /\
+  flags_of_root (CLeaf 0 unhinted) = noflags.
+Proof. split; reflexivity. Qed.
+
+(** `registry().with(L1).with(L2)`: the Registry records nothing, L1 then L2 see the event; the stack's hint is the layers'. *)
+Example C09_registry_root_example :
+  let c := CLayered (SLeaf 2 (hinted 4)) (CLayered (SLeaf 1 (hinted 2)) (CLeaf 0 (beh_registry (fun _ => true)))) in
+  snd (run_case gen_tables c [OEvent 2; OHint; ORegisterCallsite 1; OTryClose 1]) =
+    [([(2, event_enabled, (2,0,0)); (1, event_enabled, (2,0,0)); (1, on_event, (2,0,0)); (2, on_event, (2,0,0))], RUnit);
+     ([(2, max_level_hint, arg0); (1, max_level_hint, arg0)], RHint (Some 4));
+     ([(2, register_callsite, (1,0,0)); (1, register_callsite, (1,0,0))], RInt IAlways);
+     ([(1, on_close, (0,1,0)); (2, on_close, (0,1,0))], RBool true)].
+Proof. vm_compute. reflexivity. Qed.
 
 (** ** None / an empty Vec behaves as if absent *)
 (** For every absent subscriber [z] (`None`, `vec![]`, a Vec of such, inside any Box / Some / reload): as a layer anywhere,
